@@ -130,7 +130,9 @@ def run(chk):
         "Decides escape-alphabet agreement between the renderer and the grammar, not tree equality after re-parsing. The characters grammar.pest forbids "
         "at the start of / as the end of an unescaped TERM (INVALID_TERM_STARTS, TERM_END_CHAR; read with a small PEG-alternation reader from the "
         "repository's grammar file) must all be in the set QueryNode::lucene_escape escapes (P-CHARSET: the code points whose switch edge reaches "
-        "String::push('\\\\'), computed by P-VAR over the MIR). quoted_escape must escape at least '\"' and '\\\\' (what PHRASE needs). Undecided: operator "
+        "String::push('\\\\'), computed by P-VAR over the MIR). quoted_escape must escape at least '\"' and '\\\\' (what PHRASE needs). R30c: numeric "
+        "alphabet agreement - every float formatter called by the renderers in datadog::search::node emits only characters NUMERIC_TERM accepts "
+        "(the grammar's exponent letters are read from grammar.pest; Debug/LowerExp emit `e`, UpperExp emits `E`). Undecided: operator "
         "precedence, default-field handling, ranges.")
     chk.assumptions += ["grammar.pest is the grammar the parser is generated from (pest_derive reads the same file)"]
     path = os.path.join(chk.repo, GRAMMAR)
@@ -178,3 +180,43 @@ def run(chk):
                               "quoted_escape leaves %r unescaped: a phrase containing it re-parses differently" % ch)
     else:
         chk.fail_closed(rid, "anchor not found: %s" % QUOTED_ESCAPE)
+
+    rule_r30c(chk, rules)
+
+
+NODE_MOD = "datadog::search::node::"
+FLOAT_FMT = re.compile(r"(?:Argument::<'_>::new_(display|debug|lower_exp|upper_exp)::<&*(f64|f32)>)|(?:<&*(f64|f32) as std::(?:fmt|string)::(Display|Debug|LowerExp|UpperExp|ToString)>::(?:fmt|to_string))")
+EXP_LETTER = {"display": "", "tostring": "", "debug": "e", "lower_exp": "e", "lowerexp": "e", "upper_exp": "E", "upperexp": "E"}
+
+
+def rule_r30c(chk, rules):
+    """numeric alphabet: a float rendered into query text must lex as one NUMERIC_TERM"""
+    facts = chk.facts
+    rid = "R30c"
+    chk.rule(rid, "float formatters used by the query renderers emit only the exponent letters NUMERIC_TERM accepts", floor=1)
+    if "NUMERIC_TERM" not in rules:
+        chk.fail_closed(rid, "grammar rule NUMERIC_TERM not found")
+        return
+    accepted = set(re.findall(r'"([eE])"', rules["NUMERIC_TERM"]))
+    chk.extra["numeric_term_exponent_letters"] = sorted(accepted)
+    names = [n for n in facts.names(lambda n: n.startswith(NODE_MOD))]
+    if not names:
+        chk.fail_closed(rid, "no bodies under %s" % NODE_MOD)
+        return
+    chk.extra["r30c_bodies_scanned"] = len(names)
+    for n in sorted(names):
+        b = facts.body(n)
+        for bb, t in b.calls():
+            m = FLOAT_FMT.search(t.get("rfn_full") or t.get("fn_full") or "")
+            if not m:
+                continue
+            kind = (m.group(1) or m.group(4)).lower()
+            letter = EXP_LETTER.get(kind)
+            ok = letter is not None and (letter == "" or letter in accepted)
+            d = {"function": n, "formatter": kind, "emits_exponent_letter": letter, "site": b.loc(t)}
+            chk.instance(rid, d, ok=ok)
+            if not ok:
+                chk.violation(rid, b.file, n, "float rendered with %s formatter" % kind,
+                              "%s formats a float with the %s formatter, whose output switches to exponent notation with %r for small/large magnitudes; "
+                              "NUMERIC_TERM in grammar.pest accepts only %s as exponent letter, so `a:>1E-5` renders as `a:>1e-5` and re-parses as `a:>1` "
+                              "followed by a free-text term" % (b.loc(t), kind, letter, sorted(accepted) or "no"), detail=d)
